@@ -452,6 +452,7 @@ def run(ctx):
     ctx.floor("C19-R7", n7, 2, "ratio-based rescale statements")
     resize_nan_rule(ctx, prog, "C19-R7")
     r9_greedy(ctx, prog)
+    rule_groupby(ctx, prog)
 
 
 def default_linking_length(ctx, prog, rule):
@@ -670,3 +671,19 @@ def resize_nan_rule(ctx, prog, rule):
                   ("unknown (nan)" if at_nan else "positive"), node=iff)
     ctx.floor(rule, n, 3, "rescale statements and psf exclusion tests of "
               "resize")
+
+
+def rule_groupby(ctx, prog):
+    from ..core import unsorted_groupby
+    ctx.rule("C19-R10", "any row order: itertools.groupby (which merges only "
+             "consecutive equal keys) is applied only to sequences sorted by "
+             "the grouping key in the module cluster -- otherwise members of one cluster that are not adjacent rows end up in different groups: the grouping depends on the row order")
+    n = 0
+    for q, fi in sorted(prog.functions.items()):
+        if not fi.module.endswith("cluster"):
+            continue
+        n += 1
+        bad = unsorted_groupby(prog, fi)
+        ctx.check("C19-R10", fi, "groupby inputs sorted in " + fi.short, not bad,
+                  bad[0][1] if bad else "", node=bad[0][0] if bad else fi.node)
+    ctx.floor("C19-R10", n, 5, "functions examined for groupby")
